@@ -39,7 +39,11 @@ def SW(off, ln, tok): return dict(k="sw", off=off, len=ln, tok=tok)
 def COPY(i): return dict(k="copy", i=i)
 REL = dict(k="reload")
 CLONEINFO = dict(k="cloneinfo")
-def ULM(mid=None): return dict(k="ulm", mid=list(mid or []))
+def ULM(mid=None, ffail=0, retry=False):
+    e = dict(k="ulm", mid=list(mid or []))
+    if ffail:
+        e.update(ffail=ffail, retry=retry)     # the extent query of chain member `ffail` fails during the (first) call
+    return e
 def ULMRACE(ws, lead_us=0): return dict(k="ulmrace", race=list(ws), len=lead_us)
 
 
@@ -176,7 +180,11 @@ def rebuild_case(rng, unaligned_pre=False, race=False, nb=None):
         ev.append(ULMRACE(ws, lead_us=rng.choice([0, 0, 50, 150, 400])))
     else:
         mid = [g.write(0.35, BW) for _ in range(rng.choice([0, 1, 2, 3, 4]))]
-        ev.append(ULM(mid))
+        if rng.random() < 0.12:
+            n_members = len(closed_after(pre)) + 2
+            ev.append(ULM(mid, ffail=rng.randint(1, n_members), retry=rng.random() < 0.5))
+        else:
+            ev.append(ULM(mid))
     for _ in range(rng.choice([0, 0, 1])):
         ev.append(g.write(0.4, BW))
     case["ev"] = ev
@@ -248,6 +256,10 @@ def clone_fault_cases():
             (ci if step == "cloneinfo" else rl).update(obst=obst, retry=retry)
             out.append(dict(mode="clone", K=8, nb=4, pre=pre, fork=-1, dpre=[], snap=1, nopunch=False,
                             ev=[COPY(1), SW(8, 8, 7), ci, rl, ULM()]))
+    for ff in (1, 2):                       # the extent query of S's file / of the head fails in UpdateLUNMap
+        for retry in (False, True):
+            out.append(dict(mode="clone", K=8, nb=4, pre=pre, fork=-1, dpre=[], snap=1, nopunch=False,
+                            ev=[COPY(1), dict(CLONEINFO), dict(REL), ULM(ffail=ff, retry=retry)]))
     return out
 
 
@@ -271,7 +283,30 @@ CORPUS_C07 = [
     # owned by the (automatic) add-time snapshot, block 2 by user snapshot 1, which also holds an older block 1
     dict(mode="rebuild", K=8, nb=6, pre=[W(0, 32, 1), SNAP(1, True), W(8, 8, 2)], fork=-1, dpre=[], snap=0, nopunch=False,
          ev=[COPY(1), COPY(2), dict(REL), ULM([BW(8, 16, 9)])]),
+    # seeded C07-preload-err: preload kept only the last file's extent-query error; member 2 (the add-time snapshot)
+    # holds the newest block 0, user snapshot 1 an older one
+    dict(mode="rebuild", K=8, nb=4, pre=[W(0, 8, 1), SNAP(1, True), W(0, 8, 2)], fork=-1, dpre=[], snap=0, nopunch=False,
+         ev=[COPY(1), COPY(2), dict(REL), ULM(ffail=2)]),
 ]
+
+
+def preload_fault_cases():
+    """UpdateLUNMap after the sync, the extent query of one chain file failing: every member of the destination's chain
+    (the head as control), the flow stopping or the step repeated.  Every closed file above the base holds the newest
+    copy of a block of which an older file (the user-created snapshot) still holds an older copy: a table built
+    without that file serves the older copy."""
+    K, out = 8, []
+    pre = [W(0, 3 * K, 1), SNAP(1, True), W(K, 2 * K, 2), SNAP(2, False), W(2 * K, K, 3)]
+    for fork in (-1, 2):
+        base = dict(mode="rebuild", K=K, nb=5, pre=pre, fork=fork, dpre=[], snap=0, nopunch=False, ev=[])
+        need = needed_copies(base)
+        n_members = len(closed_after(pre)) + 2                  # closed members + add-time snapshot + head
+        for ff in range(1, n_members + 1):
+            for retry in (False, True):
+                c = copy.deepcopy(base)
+                c["ev"] = [COPY(i) for i in need] + [BW(3 * K, K, 7), dict(REL), BW(4 * K, K, 8), ULM([BW(0, K, 9)], ffail=ff, retry=retry)]
+                out.append(c)
+    return out
 
 
 def merge_enum_cases():
@@ -384,6 +419,10 @@ def mev_terms(c, out):
                 terms.append("MCloneInfoFail %d %d%%N" % (0 if e["obst"] == "volume" else 1, out.get("snaprev", 0)))
             else:
                 terms.append("MReloadFail")
+            if not e.get("retry"):
+                break
+        if e.get("ffail"):
+            terms.append("MUlmFail %d" % e["ffail"])
             if not e.get("retry"):
                 break
         terms.append(mev_term(e, out))
@@ -513,9 +552,10 @@ def shrink(ctx, binpath, case, still_bad, tag="rshr", rounds=16):
                     del c["ev"][i][fld][j]
                     cands.append(c)
         for i, e in enumerate(cur["ev"]):
-            if e.get("obst"):
+            if e.get("obst") or e.get("ffail"):
                 c = copy.deepcopy(cur)
-                c["ev"][i].pop("obst")
+                c["ev"][i].pop("obst", None)
+                c["ev"][i].pop("ffail", None)
                 c["ev"][i].pop("retry", None)
                 cands.append(c)
         if cur["fork"] >= 0:
@@ -546,6 +586,7 @@ def gen_cases(rng, pid, quick):
             [e for e in c["ev"] if e["k"] == "reload"][0].update(obst="volume", retry=retry)
             cases.append(c)
         cases += merge_enum_cases()
+        cases += preload_fault_cases()
         cases += enum_cases()
         for _ in range(110 if quick else 3000):
             cases.append(rebuild_case(rng))
@@ -571,7 +612,8 @@ def describe(case):
                 "ulm = Server.UpdateLUNMap with `mid` written between its two critical sections, ulmrace = against a free writer; "
                 "cloneinfo = Server.UpdateCloneInfo(S, counter recorded for S); obst on cloneinfo/reload = a directory stands at "
                 "volume.meta.tmp (volume) or <head>.meta.tmp (head) while the call runs, so that this one metadata write fails; the step "
-                "must report it: the flow then stops (no retry) or repeats the step (retry)")
+                "must report it: the flow then stops (no retry) or repeats the step (retry); ffail on ulm = the extent query (FIEMAP) of chain "
+                "member ffail of the destination fails during the call (its descriptors are swapped for /dev/null)")
 
 
 def run_data_half(ctx, pid, quick):
